@@ -74,6 +74,9 @@ impl<Callbacks: crate::callbacks::Callbacks> vte::Perform
                 b'M' => self.screen.ri(),
                 b'c' => self.screen.ris(),
                 b'g' => self.callbacks.visual_bell(&mut self.screen),
+                // ST: vte dispatches the `ESC \\` that terminates an OSC, DCS,
+                // SOS, PM or APC string as an escape sequence of its own
+                b'\\' => {}
                 _ => {
                     self.callbacks.unhandled_escape(
                         &mut self.screen,
